@@ -18,6 +18,8 @@ REMOVERS = ("pop", "pop_back", "pop_front", "remove", "retain", "drain", "swap_r
 
 # (ADT suffix, field) -> reason. An exemption suppresses one field; it is never a property-level finding.
 EXEMPT = {
+    ("kanata_state_machine::oskbd::simulated::LogFmt", "ticks"): "feature simulated_output (simulator binaries only): tick counter of the textual output log, no effect on emitted events; the simulator never blocks",
+    ("kanata_state_machine::oskbd::simulated::Outputs", "ticks"): "feature simulated_output (simulator binaries only): tick counter of the recorded output, no effect on emitted events; the simulator never blocks",
     ("kanata_state_machine::kanata::Kanata", "prev_keys"): "recomputed from layout.states on every tick",
     ("kanata_state_machine::kanata::Kanata", "cur_keys"): "recomputed from layout.states on every tick",
     ("kanata_state_machine::kanata::Kanata", "time_remainder"): "wall-clock bookkeeping, reset on wake-up (R-LOOP)",
